@@ -188,7 +188,7 @@ func capabilityProbes(w *World) *probeRun {
 	// grants at the token endpoint
 	cc := p.do(Op{Kind: "Token", Grant: "client_credentials", Cred: cred1})
 	// the same with a valid DPoP proof: bound when dpop_signing_alg_values_supported is advertised, ignored otherwise
-	p.do(Op{Kind: "Token", Grant: "client_credentials", Cred: cred1, Bind: Bind{Dpop: validProof(w, 0)}})
+	p.do(Op{Kind: "Token", Grant: "client_credentials", Cred: cred1, Bind: Bind{Dpop: cfgValidProof(w, 0)}})
 	a := p.do(Op{Kind: "Authorize", Client: 1, Params: base("code"), PolicyAvail: true, Pol: pol})
 	code := unknownBase + 1
 	if a.Kind == "Nav" && a.NCode != 0 {
